@@ -559,6 +559,38 @@ fn gen_c04_grammar(r: &mut Rng) -> Vec<GRule> {
     rules
 }
 
+
+/// token-oriented ParserState programs: rules under nested look-aheads, atomicity switches and sequences that fail after
+/// a rule matched; sub-trees come from pvharness::prog::gen (the Layer-C generator) now and then
+fn gen_pp(rng: &mut Rng, d: u32) -> pp::Prog {
+    use pp::Prog::*;
+    let lit = |rng: &mut Rng| Str(["a", "b", "ab", "é"][rng.weighted(&[6, 5, 2, 1])].to_string());
+    if d == 0 || rng.chance(1, 7) {
+        return match rng.weighted(&[8, 3, 1, 1, 2, 1]) { 0 => lit(rng), 1 => Skip(1), 2 => Ok, 3 => Err, 4 => Rule(rng.below(3) as u32, Box::new(lit(rng))), _ => Tag(rng.below(3) as usize) };
+    }
+    if rng.chance(1, 6) { return pp::gen(rng, d.min(4), 0, None); }
+    let sub = |rng: &mut Rng| Box::new(gen_pp(rng, d - 1));
+    match rng.weighted(&[10, 6, 5, 4, 3, 5, 4, 10, 6, 1, 5, 6, 3]) {
+        // a look-ahead nested in a positive look-ahead, something after it inside, something after both
+        10 => { let x = sub(rng); let y = sub(rng); let z = sub(rng); Then(Box::new(Look(true, Box::new(Then(Box::new(Look(rng.chance(1, 2), x)), y)))), z) }
+        // an atomicity switch inside a sequence that may fail after it, inside another atomicity
+        11 => { let x = sub(rng); let y = sub(rng); let z = sub(rng); let (a, b) = if rng.chance(1, 2) { (0u8, 1 + rng.below(2) as u8) } else { (rng.below(3) as u8, rng.below(3) as u8) };
+                Atomic(a, Box::new(Else(Box::new(Seq(Box::new(Then(Box::new(Atomic(b, x)), y)))), z))) }
+        // a negative look-ahead around a nested one
+        12 => { let x = sub(rng); let y = sub(rng); Then(Box::new(Look(false, Box::new(Then(Box::new(Look(rng.chance(1, 2), x)), Box::new(Err))))), y) }
+        0 => Rule(rng.below(3) as u32, sub(rng)),
+        1 => Seq(sub(rng)),
+        2 => { let l = lit(rng); let b = sub(rng); Rep(Box::new(Seq(Box::new(Then(b, Box::new(l)))))) }      // (B ~ lit)*: B matches, then a mismatch
+        3 => Opt(sub(rng)),
+        4 => Roe(sub(rng)),
+        5 => Look(rng.chance(1, 2), sub(rng)),
+        6 => Atomic(rng.below(3) as u8, sub(rng)),
+        7 => { let a = sub(rng); let b = sub(rng); Then(a, b) }
+        8 => { let a = sub(rng); let b = sub(rng); Else(Box::new(Seq(a)), b) }
+        _ => { let a = sub(rng); let b = sub(rng); IfNa(a, b) }
+    }
+}
+
 fn hexs(s: &str) -> String { s.bytes().map(|b| format!("{:02x}", b)).collect() }
 fn unhexs(h: &str) -> String { String::from_utf8((0..h.len() / 2).map(|k| u8::from_str_radix(&h[2 * k..2 * k + 2], 16).unwrap()).collect()).unwrap() }
 
@@ -579,9 +611,9 @@ fn run_vg_case(out: &mut Out, vm: &pest_vm::Vm, names: &[String], gtext: &str, d
 }
 
 /// one run of a pvharness::prog program on the real ParserState; the real queue (with links) is dumped at the end
-fn run_pp_case(out: &mut Out, d: usize, h: usize, scripts: &[String], input: &str, p: &pp::Prog) -> bool {
+fn run_pp_case(out: &mut Out, d: usize, h: usize, scripts: &[String], input: &str, p: &pp::Prog, empties: &mut u64) -> bool {
     let dump: RefCell<String> = RefCell::new(String::new());
-    let cx = pp::Ctx::new(&[], 20_000);
+    let cx = pp::Ctx::new(&[], 1_500);
     let res = catch(|| pest::state::<pp::R, _>(input, |s| { let r = pp::run(p, s, &cx); if let Ok(ref st) = r { *dump.borrow_mut() = st.verif_dump(); } r }));
     if cx.diverged.get() { return false; }
     match res {
@@ -595,6 +627,8 @@ fn run_pp_case(out: &mut Out, d: usize, h: usize, scripts: &[String], input: &st
                 if f[0] == "S" { format!("s{}.{}", f[1], f[2]) } else { format!("e{}.{}.{}.{}", f[1], f[2], f[3], f[4]) }
             }).collect();
             let raw = raw.join(",");
+            // an Ok result with an empty queue says little: keep one in sixteen
+            if raw.is_empty() { *empties += 1; if *empties % 16 != 1 { return true; } }
             let case = format!("P|{}|{}|{}|{}|pp:{}#~0,1,2#{}", d, h, scripts.join(","), esc(input), p.show(), raw);
             let obs = observe_t(root, input, &rid, d, h, scripts, NUMTAGS);
             out.line(&case, &obs, raw.matches('s').count() >= 3);
@@ -816,19 +850,26 @@ fn main() {
         }
         // real parses: random ParserState closure trees from pvharness::prog::gen (the Layer-C generator), depth up to DEPTH
         "prog" => {
-            let count = arg_u64(2, 1000);
+            let count = arg_u64(2, 1000);           // programs tried
             let mut rng = Rng::new(arg_u64(3, 0));
             let maxd = arg_u64(4, 7) as u32;
-            let mut produced = 0u64; let mut tries = 0u64; let mut seen: HashSet<String> = HashSet::new();
-            while produced < count && tries < count * 40 {
+            let mut produced = 0u64; let mut tries = 0u64; let mut empties = 0u64; let mut seen: HashSet<String> = HashSet::new();
+            while tries < count {
                 tries += 1;
                 let depth = rng.range(3, maxd as u64) as u32;
-                let p = pp::gen(&mut rng, depth, 0, None);
+                let g = |rng: &mut Rng, d: u32| Box::new(if rng.chance(2, 3) { gen_pp(rng, d) } else { pp::gen(rng, d, 0, None) });
+                // half of the programs are wrapped so that rules (tokens) surround whatever the generator builds
+                let p = match rng.below(6) {
+                    0 => pp::Prog::Rule(rng.below(3) as u32, g(&mut rng, depth - 1)),
+                    1 => pp::Prog::Then(Box::new(pp::Prog::Rule(rng.below(3) as u32, g(&mut rng, depth - 1))), Box::new(pp::Prog::Opt(Box::new(pp::Prog::Rule(rng.below(3) as u32, g(&mut rng, depth - 1)))))),
+                    2 => pp::Prog::Rep(Box::new(pp::Prog::Seq(Box::new(pp::Prog::Then(Box::new(pp::Prog::Rule(rng.below(3) as u32, Box::new(pp::Prog::Skip(1)))), g(&mut rng, depth - 1)))))),
+                    _ => *g(&mut rng, depth),
+                };
                 let input = pp::gen_input(&mut rng, 6);
                 let key = format!("{}|{}", p.show(), input);
                 if !seen.insert(key) { continue; }
                 let scripts = if rng.chance(1, 4) { random_scripts(&mut rng, 1, 12) } else { vec![] };
-                if run_pp_case(&mut out, 2, 1, &scripts, &input, &p) { produced += 1; }
+                if run_pp_case(&mut out, 2, 1, &scripts, &input, &p, &mut empties) { produced += 1; }
             }
             writeln!(out.w, "#PROG\tprograms_tried={}\tok_runs={}", tries, produced).unwrap();
         }
@@ -858,7 +899,7 @@ fn main() {
                         if let Some((vm, names)) = compile(&gtext) { run_vg_case(&mut out, &vm, &names, &gtext, d, h, &input, None); }
                     } else if let Some(ps) = src.strip_prefix("pp:") {
                         let prog = pp::Prog::parse(ps);
-                        run_pp_case(&mut out, d, h, &scripts, &input, &prog);
+                        run_pp_case(&mut out, d, h, &scripts, &input, &prog, &mut 0);
                     } else if let Some(pg) = src.strip_prefix("st:") {
                         let w = pg_lex(pg); let mut i = 0; let prog = pg_parse(&w, &mut i);
                         run_st_case(&mut out, d, h, &scripts, &input, &prog);
